@@ -6,6 +6,7 @@ import (
 	"net"
 	"os"
 	"runtime"
+	"sort"
 	"strings"
 	"sync"
 	"testing"
@@ -83,6 +84,37 @@ func deadlockedOnErrCh(dump string) (bool, string) {
 		}
 	}
 	return runWaiting && loopSending != "", loopSending
+}
+
+// parkedWorkers finds, in a goroutine dump taken while Run is joining its workers (FullNode.Run only
+// reaches WaitGroup.Wait after it has cancelled the node's context), the worker loops that are PARKED:
+// blocked in a select, a channel receive or a sleep. A wait that includes the cancelled context cannot
+// be in that state, so such a goroutine is waiting for something else than the stop. Keyed by goroutine id.
+func parkedWorkers(dump string) (runWaiting bool, parked map[string]string) {
+	parked = map[string]string{}
+	for _, g := range strings.Split(dump, "\n\n") {
+		if strings.Contains(g, "node.(*FullNode).Run(") && strings.Contains(g, "sync.(*WaitGroup).Wait") {
+			runWaiting = true
+		}
+		head, _, _ := strings.Cut(g, "\n")
+		if !strings.HasPrefix(head, "goroutine ") {
+			continue
+		}
+		id, rest, _ := strings.Cut(strings.TrimPrefix(head, "goroutine "), " ")
+		state := strings.Trim(rest, "[]:")
+		if st, _, _ := strings.Cut(state, ","); st != "select" && st != "chan receive" && st != "sleep" && st != "select (no cases)" {
+			continue
+		}
+		for _, loop := range []string{"AggregationLoop", "HeaderSubmissionLoop", "DataSubmissionLoop", "DAIncluderLoop", "RetrieveLoop", "HeaderStoreRetrieveLoop", "DataStoreRetrieveLoop", "SyncLoop"} {
+			if strings.Contains(g, "block.(*Manager)."+loop+"(") {
+				parked[id] = loop + " [" + state + "]"
+			}
+		}
+		if strings.Contains(g, "block.(*Reaper).Start(") {
+			parked[id] = "Reaper.Start [" + state + "]"
+		}
+	}
+	return
 }
 
 func runReal(sc RealScenario, dir string) world.Verdict {
@@ -163,9 +195,32 @@ func runReal(sc RealScenario, dir string) world.Verdict {
 	// Run has not returned: is it the structural deadlock (never a matter of speed), observed twice?
 	d1 := goroutineDump()
 	ok1, loop := deadlockedOnErrCh(d1)
+	rw1, pk1 := parkedWorkers(d1)
 	time.Sleep(3 * time.Second)
-	ok2, _ := deadlockedOnErrCh(goroutineDump())
+	d2 := goroutineDump()
+	ok2, _ := deadlockedOnErrCh(d2)
+	rw2, pk2 := parkedWorkers(d2)
+	select {
+	case <-done:
+		rw1 = false // it did return meanwhile
+	default:
+	}
 	cancel()
+	if rw1 && rw2 && !(ok1 && ok2) {
+		ids := []string{}
+		for id := range pk1 {
+			if _, still := pk2[id]; still {
+				ids = append(ids, id)
+			}
+		}
+		sort.Strings(ids)
+		for _, id := range ids {
+			what := pk1[id]
+			{
+				return world.Fail("C13/real/worker-outlives-stop", "FullNode.Run does not return after the stop (%s): it has cancelled the node's context and waits for its workers, while %s is parked in a wait that the cancelled context does not end (same goroutine in two goroutine dumps 3 s apart, more than 30 s after the stop)", sc.Stop, what)
+			}
+		}
+	}
 	if ok1 && ok2 {
 		return world.Fail("C13/real/shutdown-deadlock", "FullNode.Run does not return after the stop (%s): it waits for its workers while %s is parked forever in the send of its error report (observed twice, 3 s apart, 30 s after the stop)", sc.Stop, loop)
 	}
